@@ -181,10 +181,8 @@ def classify(res):
     verdict = {}
     seen_contents = {}
     for ri, rec in enumerate(recs):
-        sub = -1
         for (stage, objs), snap in zip(rec['objs'], rec['snaps']):
-            if stage == 'start:in':
-                sub += 1
+            sub = snap.get('sub', 0)
             first = {}
             items = slot_items(snap['contents'])
             for name in [n for n in objs if lean_slot(n) in SLOTS]:
